@@ -516,6 +516,11 @@ static std::string raw_read(File& f, int n)
 static std::string raw_read(Socket& s, int n)
 {
 	if (n == 0) return std::string();
+	static unsigned flip = 0;
+	if (++flip % 3 == 0) {   // the ByteArray-returning form: blocks until exactly n bytes have arrived
+		ByteArray a = s.read(n);
+		return std::string((const char*)a.data(), (size_t)a.length());
+	}
 	String t = s.readString(n);
 	return std::string(*t, (size_t)t.length());
 }
